@@ -3,7 +3,8 @@ C14 — model of boundary repair (src/components/boundary.rs) and of the initial
 (src/components/initialization/{functional,common,mod}.rs).
 
 Numeric code is generic over the carrier `F` (core classes only): the driver instantiates `Float`,
-the theorems an arbitrary ordered field.  Loops take fuel (`Mirror`) or a script of draws
+the theorems an arbitrary ordered field.  `f64::rem_euclid` (`Mirror`) and `f64::floor` (`Toroidal`) are parameters of the model.
+Loops take fuel (`Mirror`) or a script of draws
 (`CompleteOneTailedNormalCorrection`); running out of either is the outcome `none`.
 Initialisers are functions of an explicit witness (the values the generator returned).
 -/
@@ -12,7 +13,7 @@ namespace MahfModel.Boundary
 
 section Repair
 variable {F : Type} [Add F] [Sub F] [Mul F] [Div F] [LT F] [LE F] [DecidableLT F] [DecidableLE F]
-  [OfNat F 0] [OfNat F 1] [OfNat F 3]
+  [OfNat F 0] [OfNat F 1] [OfNat F 2] [OfNat F 3]
 
 /-- `izip!(solution, problem.domain())`: the operator is applied to the coordinates that have a
 domain entry; the solution is edited in place, so surplus coordinates stay. -/
@@ -58,7 +59,18 @@ def mirrorIter (a b : F) : Nat → F → F
   | 0, v => v
   | n + 1, v => mirrorIter a b n (mirrorStep a b v)
 
-def mirror (fuel : Nat) (x : F) (dom : F × F) : Option F := mirrorLoop dom.1 dom.2 fuel x
+/-- The fold `Mirror::constrain` does before its loop (commit 664f681), with `f64::rem_euclid` as a
+parameter: `if d > 0. && (x < a - d || x > b + d) { x = a + (x - a).rem_euclid(2. * d) }`. -/
+def mirrorFold (rem : F → F → F) (a b x : F) : F :=
+  let d := b - a
+  if d > 0 ∧ (x < a - d ∨ x > b + d) then a + rem (x - a) (2 * d) else x
+
+/-- `Mirror::constrain` on one coordinate: fold, then the reflection loop. -/
+def mirror (rem : F → F → F) (fuel : Nat) (x : F) (dom : F × F) : Option F :=
+  mirrorLoop dom.1 dom.2 fuel (mirrorFold rem dom.1 dom.2 x)
+
+/-- `Mirror::constrain` as it was before the fold was added: the reflection loop alone. -/
+def mirrorStepwise (fuel : Nat) (x : F) (dom : F × F) : Option F := mirrorLoop dom.1 dom.2 fuel x
 
 /-- `CompleteOneTailedNormalCorrection` on one coordinate: `dist = Normal::new(0, (b - a) / 3)` is
 built per coordinate and `dist.sample(rng).abs()` is `(b - a) / 3 * |z|` for a standard-normal `z`.
@@ -107,6 +119,42 @@ def zipDomainM (f : F → F × F → Option F) : List F → List (F × F) → Op
 def inside (a b x : F) : Bool := decide (a ≤ x) && decide (x ≤ b)
 
 end Repair
+
+/-! ## `f64::rem_euclid` for the `Float` carrier
+
+`f64::rem_euclid(self, rhs)` is `let r = self % rhs; if r < 0.0 { r + rhs.abs() } else { r }` and `%` on
+`f64` is C's `fmod`, which is EXACT (no rounding).  Lean's `Float` has no `fmod`, so it is computed
+here on the decoded doubles with integer arithmetic: `x = ±mx·2^ex`, `y = ±my·2^ey`, `e = min ex ey`,
+`fmod x y = ±((mx·2^(ex−e)) mod (my·2^(ey−e)))·2^e` with the sign of `x`. -/
+
+/-- A finite double as `(negative, mantissa, exponent)`, value `±mantissa·2^exponent`; `none` = ±inf / NaN. -/
+def f64Decode (x : Float) : Option (Bool × Nat × Int) :=
+  let bits : Nat := x.toBits.toNat
+  let neg : Bool := bits / 2 ^ 63 == 1
+  let e : Nat := (bits / 2 ^ 52) % 2048
+  let m : Nat := bits % 2 ^ 52
+  if e == 2047 then none
+  else if e == 0 then some (neg, m, -1074)
+  else some (neg, 2 ^ 52 + m, (e : Int) - 1075)
+
+/-- C `fmod` / Rust `f64 % f64`. -/
+def f64Fmod (x y : Float) : Float :=
+  match f64Decode x, f64Decode y with
+  | some (nx, mx, ex), some (_, my, ey) =>
+    if my == 0 then 0.0 / 0.0
+    else
+      let e : Int := min ex ey
+      let r : Nat := (mx * 2 ^ (ex - e).toNat) % (my * 2 ^ (ey - e).toNat)
+      -- `r < my·2^(ey−e)` and `r ≤ mx·2^(ex−e)`: fewer than 2^53 units of `2^e`, so both steps are exact
+      let v := (Float.ofNat r).scaleB e
+      if nx then -v else v
+  | some _, none => if y.isNaN then 0.0 / 0.0 else x
+  | none, _ => 0.0 / 0.0
+
+/-- `f64::rem_euclid`. -/
+def f64RemEuclid (x m : Float) : Float :=
+  let r := f64Fmod x m
+  if r < 0.0 then r + m.abs else r
 
 /-! ## Initialisation -/
 
